@@ -613,6 +613,11 @@ func c05Alphabet(tier string) []c05Event {
 	for _, k := range []string{"alice", "anon", "keyskip"} {
 		ev = append(ev, c05Event{kind: "open", who: k, cmd: cmdH})
 	}
+	// command numbers that equal a registered command only in their low 32 bits: unknown commands
+	for _, k := range []string{"anon", "plain"} {
+		ev = append(ev, c05Event{kind: "open", who: k, cmd: cmdC + 1<<32})
+	}
+	ev = append(ev, c05Event{kind: "follow", cmd: cmdC + 1<<32}, c05Event{kind: "follow", cmd: cmdB + 1<<32})
 	for _, c := range append(append([]int(nil), c05Cmds...), cmdF, cmdG) {
 		ev = append(ev, c05Event{kind: "follow", cmd: c})
 	}
@@ -683,7 +688,7 @@ func c05Run(hist []c05Event, layout string) *vlib.Result {
 func C05Plan() *vlib.Plan {
 	p := &vlib.Plan{
 		Property: "C05", Level: "model_checking", Procs: 16,
-		Rule:   "Bounded history enumeration on a real server.Server with commands A (auth/enc OPTIONAL, READ), B (auth REQUIRED, WRITE), C (auth+enc REQUIRED, DAEMON), D (raw), E (unregistered), F (registered raw, then re-registered authenticated with C's policy), G (registered authenticated, then re-registered raw), H (auth OPTIONAL, enc PREFERRED: encryption negotiated but not demanded - opened by alice, the unauthenticated and the key-skipping client), per-command policies and a switchable authorizer table, in two layouts (permissive default + a per-command answer for every command; strictest default + a per-command hook that returns nil for C so that C's policy arrives through the fallback - run for every history that mentions C; and permissive default + an FQUMapper, the authorizer table applying to the MAPPED names while a raw name would be allowed everything - run for every history that sets a table). Events: open a connection as {alice, bob (TOKEN), unauthenticated, plaintext, 'lurker' (lists TOKEN but holds no token: a method is pre-selected yet nothing ever runs), scripted key-skipping CLAIMTOBE client} with first command x; follow-on command x on the kept-alive connection; reconnect and explicitly resume the client's last session with command x; switch the authorizer table; raw send of x. All histories <= 3 events (quick: reduced alphabet; thorough: full alphabet) plus, in thorough, all histories of 4 events over a core alphabet (follow requires an open connection, resume requires a prior session). Plus all histories <= 3 over {open as alice / anonymous / 'alice-nc' / 'carol-nc' (TOKEN / CLAIMTOBE with no cipher in common: authenticated sessions whose key has no cipher / that have no key at all), a scripted requester without key or credentials naming one of their session ids in a resumption request, table switches}, against the default server and against a server configured with a session cache of its own. A monitor inside every handler records each dispatch; oracle: registered + right path (raw vs authenticated), authentication really ran on the wire for that session when the command requires it, stream really encrypted and canaries invisible when it requires encryption, identity currently authorized when a table is set; refused/unknown commands close the connection and nothing further runs. Non-trivial = history with >= 1 dispatch decision.",
+		Rule:   "Bounded history enumeration on a real server.Server with commands A (auth/enc OPTIONAL, READ), B (auth REQUIRED, WRITE), C (auth+enc REQUIRED, DAEMON), D (raw), E (unregistered), F (registered raw, then re-registered authenticated with C's policy), G (registered authenticated, then re-registered raw), plus command numbers equal to B / C only in their low 32 bits (unknown commands), H (auth OPTIONAL, enc PREFERRED: encryption negotiated but not demanded - opened by alice, the unauthenticated and the key-skipping client), per-command policies and a switchable authorizer table, in two layouts (permissive default + a per-command answer for every command; strictest default + a per-command hook that returns nil for C so that C's policy arrives through the fallback - run for every history that mentions C; and permissive default + an FQUMapper, the authorizer table applying to the MAPPED names while a raw name would be allowed everything - run for every history that sets a table). Events: open a connection as {alice, bob (TOKEN), unauthenticated, plaintext, 'lurker' (lists TOKEN but holds no token: a method is pre-selected yet nothing ever runs), scripted key-skipping CLAIMTOBE client} with first command x; follow-on command x on the kept-alive connection; reconnect and explicitly resume the client's last session with command x; switch the authorizer table; raw send of x. All histories <= 3 events (quick: reduced alphabet; thorough: full alphabet) plus, in thorough, all histories of 4 events over a core alphabet (follow requires an open connection, resume requires a prior session). Plus all histories <= 3 over {open as alice / anonymous / 'alice-nc' / 'carol-nc' (TOKEN / CLAIMTOBE with no cipher in common: authenticated sessions whose key has no cipher / that have no key at all), a scripted requester without key or credentials naming one of their session ids in a resumption request, table switches}, against the default server and against a server configured with a session cache of its own. A monitor inside every handler records each dispatch; oracle: registered + right path (raw vs authenticated), authentication really ran on the wire for that session when the command requires it, stream really encrypted and canaries invisible when it requires encryption, identity currently authorized when a table is set; refused/unknown commands close the connection and nothing further runs. Non-trivial = history with >= 1 dispatch decision.",
 		Assume: []string{"16 worker processes, each with its own process-global server cache", "ground truth for 'authenticated' = an authentication exchange was seen on the wire when the session was created"},
 	}
 	p.Gen = func(tier string, yield func(vlib.Case)) {
